@@ -26,7 +26,7 @@ NAME_CHARS = 'abcdefghijklmnopqrstuvwxyzABCDEFGHIJKLMNOPQRSTUVWXYZ0123456789_-.:
 
 def gen_table_text(rng):
     n = rng.choice((0, 1, 2, 5, 20, 100))
-    lines, model = [], {}
+    lines, model, done = [], {}, []
     ids = [rng.getrandbits(rng.choice((8, 16, 24, 32))) for _ in range(max(1, n // 2 + 1))]
     for _ in range(n):
         i = rng.choice(ids) if rng.random() < 0.4 else rng.getrandbits(32)
@@ -46,6 +46,15 @@ def gen_table_text(rng):
             line += rng.choice((' ', '\t', '   '))
         lines.append(line)
         model[i] = name
+        done.append((line, i, name))
+        if len(done) > 1 and rng.random() < 0.25:
+            # a line repeated VERBATIM later in the text (a table pasted together from overlapping pieces, a section stored
+            # more than once): it is one more occurrence of its id, and the last occurrence wins - also when another name
+            # was given to that id in between
+            line2, i2, name2 = rng.choice(done[:-1])
+            lines.append(line2)
+            model[i2] = name2
+            done.append((line2, i2, name2))
     eol = rng.choice(('\n', '\n', '\r\n'))
     text = eol.join(lines) + (eol if lines and rng.random() < 0.7 else '')
     return text, model
